@@ -44,6 +44,7 @@ def collect(h):
         raise h.Missing(f"{rel}: CompareAndDelete neither drops the cache entry nor caches the absence; update C07_Cache/Model.v")
     items.append(("cache_delete_leaves_marker", "bool", "true" if marker else "false", rel + " CompareAndDelete: cache update after a successful delete"))
     items += big_values(h, rel)
+    items.append(expired_branch(h, rel))
     items.append(provider_handles(h, rel))
     items.append(write_errors(h, rel))
     return items
@@ -213,6 +214,8 @@ def key_guard(h, rel, s, set_cached_body):
     n_new, n_old = 0, 0
     for name, pat in sites.items():
         body = h.func_body(rel, pat, "cache " + name)
+        if name == "TTLGet":  # the expired-entry branch is read by expired_branch()
+            body = re.sub(r"if d\.IsExpired\(s\.iTime\.Now\(\)\) \{.*?\n\t\t\}", "", body, flags=re.S)
         a = len(re.findall(r"s\.setAbsent\(", body))
         b = len(re.findall(r"s\.cache\.Set\([^\n]*,\s*nil\)", body))
         if a + b != 1:
@@ -231,3 +234,20 @@ def key_guard(h, rel, s, set_cached_body):
         return ("cache_key_guard", "bool", "false", rel + " 'known missing' stored directly, setCached without a key guard")
     raise h.Missing(f"{rel}: the key guard of the cache is applied inconsistently (setAbsent sites {n_new}, direct {n_old}, "
                     f"cacheableKey {has_pred}, first in setCached {guard_first}, setAbsent shape {has_absent}); update C07_Cache/Model.v")
+
+
+def expired_branch(h, rel):
+    """TTLGet finding an expired entry: does it cache the absence (setAbsent: the entry stays a guard for reads
+    in flight) or drop the entry (s.cache.Del, the code before the repair of C07-EXPDEL)"""
+    body = h.func_body(rel, r"^func \(s \*cachedAppStorage\) TTLGet\(", "cache TTLGet")
+    m = re.search(r"if d\.IsExpired\(s\.iTime\.Now\(\)\) \{(.*?)\n\t\t\}", body, re.S)
+    if not m:
+        raise h.Missing(f"{rel}: cannot locate the expired-entry branch of TTLGet")
+    blk = re.sub(r"//[^\n]*", "", m.group(1))
+    if not re.search(r"return false, nil", blk):
+        raise h.Missing(f"{rel}: the expired-entry branch of TTLGet no longer answers 'not found' at once; update C07_Cache/Model.v")
+    marker = bool(re.search(r"s\.setAbsent\(key\)", blk))
+    drops = bool(re.search(r"s\.cache\.Del\(key\)", blk))
+    if marker == drops:
+        raise h.Missing(f"{rel}: TTLGet's expired-entry branch neither drops the entry nor caches the absence; update C07_Cache/Model.v")
+    return ("cache_expired_leaves_marker", "bool", "true" if marker else "false", rel + " TTLGet: cache update on an expired entry")
